@@ -55,13 +55,21 @@ D15 == << N("OP", 0, "", "query"), N("F", 1, "o", ""), N("F", 2, "s", ""), N("F"
 \* D16: a named fragment spread directly in the operation's root selection set   { ...F }  fragment F on Query { s i }
 D16 == << N("OP", 0, "", "query"), N("S", 1, "F", ""), [N("FRAG", 0, "F", "") EXCEPT !.cond = "Query"], N("F", 3, "s", ""), N("F", 3, "i", "") >>
 
+\* D17: two operations, the first declaring a required variable and one of a custom scalar type
+\*      query A($v: Boolean!, $c: Cs) { s @skip(if: $v) cs(a: $c) }   query B { i }
+D17 == << [N("OP", 0, "A", "query") EXCEPT !.vdefs = <<VDef("v", <<"NN", "Boolean">>), VDef("c", <<"Cs">>)>>],
+          [N("F", 1, "s", "") EXCEPT !.dirs = <<[name |-> "skip", val |-> [t |-> "var", v |-> "v"]]>>],
+          [N("F", 1, "cs", "") EXCEPT !.args = <<[name |-> "a", val |-> [t |-> "var", v |-> "c"]]>>],
+          N("OP", 0, "B", "query"), N("F", 4, "i", "") >>
+
 DocsStd == [ D1 |-> [class |-> "valid", nodes |-> D1], D2 |-> [class |-> "valid", nodes |-> D2],
              D3 |-> [class |-> "invalid", nodes |-> D3], D4 |-> [class |-> "broken", nodes |-> D4],
              D5 |-> [class |-> "valid", nodes |-> D5], D6 |-> [class |-> "valid", nodes |-> D6],
              D7 |-> [class |-> "invalid", nodes |-> D7], D8 |-> [class |-> "invalid", nodes |-> D8],
              D9 |-> [class |-> "valid", nodes |-> D9], D10 |-> [class |-> "valid", nodes |-> D10], D11 |-> [class |-> "invalid", nodes |-> D11],
              D12 |-> [class |-> "valid", nodes |-> D12], D13 |-> [class |-> "valid", nodes |-> D13], D14 |-> [class |-> "valid", nodes |-> D14],
-             D15 |-> [class |-> "valid", nodes |-> D15], D16 |-> [class |-> "valid", nodes |-> D16] ]
+             D15 |-> [class |-> "valid", nodes |-> D15], D16 |-> [class |-> "valid", nodes |-> D16],
+             D17 |-> [class |-> "valid", nodes |-> D17] ]
 
 Rq(d, sp, opn, g) == [doc |-> d, spelling |-> sp, opName |-> opn, given |-> g]
 PoolStd == { Rq("D1", "str", "A", <<>>), Rq("D1", "str", "B", <<>>), Rq("D1", "bytes", "A", <<>>), Rq("D1", "str", "", <<>>),
@@ -70,7 +78,8 @@ PoolStd == { Rq("D1", "str", "A", <<>>), Rq("D1", "str", "B", <<>>), Rq("D1", "b
              Rq("D3", "str", "", <<>>), Rq("D4", "str", "", <<>>), Rq("D4", "bytes", "", <<>>), Rq("D5", "str", "M", <<>>),
              Rq("D6", "str", "", [n |-> Int(3)]), Rq("D6", "str", "", [n |-> Int(4)]), Rq("D6", "bytes", "", <<>>), Rq("D7", "str", "", <<>>), Rq("D8", "str", "", <<>>) }
 \* C18: the operation-selection x variables matrix (one request per behaviour)
-PoolEnv == PoolStd \cup { Rq("D2", "str", "", [v |-> Bool(TRUE), extra |-> Int(1)]), Rq("D2", "str", "", [v |-> Null]),
+PoolEnv == PoolStd \cup { Rq("D17", "str", "", [c |-> Str("x")]), Rq("D17", "str", "Zzz", [c |-> Str("x")]), Rq("D17", "str", "B", [c |-> Str("x")]),
+                          Rq("D17", "str", "A", [c |-> Str("x")]), Rq("D17", "str", "A", [v |-> Bool(FALSE), c |-> Str("x")]), Rq("D2", "str", "", [v |-> Bool(TRUE), extra |-> Int(1)]), Rq("D2", "str", "", [v |-> Null]),
                           Rq("D2", "str", "Nope", [v |-> Bool(TRUE)]), Rq("D5", "str", "", <<>>), Rq("D5", "bytes", "X", <<>>),
                           Rq("D3", "bytes", "A", <<>>), Rq("D4", "str", "A", [v |-> Bool(TRUE)]) }
 \* history-sensitive documents: widening fragment then the other implementer; invalid documents of several rules, repeated
